@@ -203,6 +203,9 @@ class GC(FileStorageFormatter):
             del self.oid2curpos
         else:
             self.reachable = self.oid2curpos
+            # Revisions that records after the pack time point back to
+            # must be kept even when no garbage is collected.
+            self.findReachableFromFuture()
 
     def buildPackIndex(self):
         pos = 4
@@ -322,6 +325,9 @@ class GC(FileStorageFormatter):
                           "match initial transaction length: %d != %d",
                           tlen, th.tlen)
             pos += 8
+
+        if not self.gc:
+            return  # everything current at the pack time is kept anyway
 
         for pos in extra_roots:
             refs = self.findrefs(pos)
